@@ -19,7 +19,7 @@ for p in props:
             evidence_file='evidence/%s.json' % pid,
             replay_cmd_template='./check %s --replay {path}' % pid,
             engine=t['engine'],
-            level_claimed=dict(category='proof', text=t['level'], design_ref=t.get('design_ref', 'DESIGN.md §3/' + pid)),
+            level_claimed=dict(category=registry.PROPS[pid].get('level', 'proof'), text=t['level'], design_ref=t.get('design_ref', 'DESIGN.md §3/' + pid)),
             level_note=t['note'],
             technique=t['technique'],
         ))
